@@ -2,6 +2,7 @@ package checks
 
 import (
 	"fmt"
+	"strconv"
 	"strings"
 
 	ctok "github.com/pip-services3-gox/pip-services3-expressions-gox/calculator/tokenizers"
@@ -43,9 +44,22 @@ func c14State(name string) (tokenizers.IQuoteState, tokenizers.ITokenizer) {
 // payload: state \x00 quote \x00 mode \x00 text      mode: "rt" round trip + stream, "dec" decode of arbitrary text
 func c14Exec(c *mon.Case) {
 	parts := strings.SplitN(c.Payload, "\x00", 4)
-	st, tk := c14State(parts[0])
+	st, tk := c14State(strings.TrimSuffix(parts[0], "+bound"))
 	q := []rune(parts[1])[0]
 	s := parts[3]
+	if strings.HasPrefix(s, "big:") { // big texts are generated from their parameters: length, and whether they begin / end with the quote
+		var n, shape int
+		fmt.Sscanf(s, "big:%d:%d", &n, &shape)
+		body := strings.Repeat("abcdefghij klmnopqrstuvwxy\n", n/27+1)[:n-2]
+		head, tail := "x", "y"
+		if shape&1 != 0 {
+			head = string(q)
+		}
+		if shape&2 != 0 {
+			tail = string(q)
+		}
+		s = head + body + tail
+	}
 	multibyte := len(s) != len([]rune(s))
 	if parts[2] == "dec" {
 		if p := mon.Try(func() { st.DecodeString(s, q) }); p != nil {
@@ -70,13 +84,30 @@ func c14Exec(c *mon.Case) {
 			var strs []string
 			if p := mon.Try(func() {
 				var t tokenizers.ITokenizer
-				if parts[0] == "csv" {
+				switch {
+				case strings.HasSuffix(parts[0], "+bound"):
+					// a quote state of the caller's own, bound to the quote character with the public SetCharacterState
+					// (on a generic or an expression tokenizer by the first letter of the text's length parity)
+					var own tokenizers.IQuoteState = csv.NewCsvQuoteState()
+					if strings.HasPrefix(parts[0], "expression") {
+						own = ctok.NewExpressionQuoteState()
+					}
+					if len(s)%2 == 0 {
+						gt := generic.NewGenericTokenizer()
+						gt.SetCharacterState(q, q, own)
+						t = gt
+					} else {
+						et := ctok.NewExpressionTokenizer()
+						et.SetCharacterState(q, q, own)
+						t = et
+					}
+				case parts[0] == "csv":
 					ct := csv.NewCsvTokenizer()
 					if q != '"' {
 						ct.SetQuoteSymbols([]rune{q})
 					}
 					t = ct
-				} else {
+				default:
 					t = ctok.NewExpressionTokenizer()
 				}
 				t.SetDecodeStrings(true)
@@ -215,5 +246,25 @@ func buildC14(cfg *mon.Config) []*mon.Sub {
 		},
 		Exec: c14Exec,
 	}
-	return []*mon.Sub{rt, dec, rnd}
+	huge := &mon.Sub{
+		Name: "values-of-a-mebibyte-and-more", Rule: "strings of 2^20 (thorough: also 2^20-2, 2^20+3 and 3 * 2^20) characters that begin and/or end with the quote character (and ones that do not), x the three states x apostrophe and double quote: decode(encode(s)) = s, and for expression and CSV the encoded form is read back from a stream as one token that decodes to s",
+		Exhaustive: true, DistinctByGen: true, Floor: 20,
+		Gen: func(emit func(string)) {
+			sizes := []int{1 << 20}
+			if !cfg.Quick() {
+				sizes = []int{1<<20 - 2, 1 << 20, 1<<20 + 3, 3 << 20}
+			}
+			for _, n := range sizes {
+				for _, q := range []string{"'", "\""} {
+					for shape := 0; shape < 4; shape++ {
+						for _, st := range c14States {
+							emit(st + "\x00" + q + "\x00rt\x00big:" + strconv.Itoa(n) + ":" + strconv.Itoa(shape))
+						}
+					}
+				}
+			}
+		},
+		Exec: c14Exec,
+	}
+	return []*mon.Sub{rt, dec, rnd, huge}
 }
